@@ -1167,9 +1167,24 @@ def remove_duplicate_functions(source: str, preserve: Collection[str]) -> str:
     if not delete and not renamings:
         return source
 
+    # Names that a function binds itself do not refer to the removed module level function
+    shadowed_names = set()
+    for funcdef in core.walk(root, (ast.FunctionDef, ast.AsyncFunctionDef, ast.Lambda)):
+        local_names = {arg.arg for arg in core.walk(funcdef.args, ast.arg)}
+        local_names.update(name.id for name in core.walk(funcdef, ast.Name(ctx=ast.Store)))
+        local_names.update(
+            child.name
+            for child in core.walk(funcdef, (ast.FunctionDef, ast.AsyncFunctionDef, ast.ClassDef))
+            if child is not funcdef
+        )
+        shadowed_names.update(
+            name for name in core.walk(funcdef, ast.Name) if name.id in local_names
+        )
+
     names = collections.defaultdict(list)
     for node in core.walk(root, ast.Name):
-        names[node.id].append(node)
+        if node not in shadowed_names:
+            names[node.id].append(node)
 
     node_renamings = collections.defaultdict(set)
     for name, substitute in renamings.items():
